@@ -172,6 +172,9 @@ type authParts struct {
 	// (%61uthorization=v); 2: an empty value written without '=' (authorization). net/url parses all three
 	// to the same parameter.
 	QSpell int `json:"query_spelling,omitempty"`
+	// BodyAuth: a field `authorization=<value>` in the form-encoded body of a POST. The body is not a credential
+	// carrier: the field must change nothing.
+	BodyAuth string `json:"body_authorization,omitempty"`
 }
 
 // encode renders the query string with the credential spelt as QSpell says.
